@@ -84,8 +84,9 @@ fn ser_fail(visit: usize) {
     tx2.send((v, c_tx.clone())).unwrap();
     assert!(env::att_count() == 1, "one transmission");
     let a = env::att(0);
+    let a_pay = env::att_pay(0);
     assert!(a.ok && a.nfds == 1 && a.fds[0] == fd_of(&c_tx), "C14: a later message carries other attachments than its own");
-    assert!(a.len == 9 && a.pay[0] == v && le64(&a.pay, 1) == 0, "C14: attachment index of a later message");
+    assert!(a.len == 9 && a_pay[0] == v && le64(&a_pay, 1) == 0, "C14: attachment index of a later message");
     drop((tx, rx, a_rx, b_rx, c_tx, c_rx, tx2, rx2));
     assert!(env::nopen() == 0 && !env::bad_close(), "C11/C14: descriptors left after everything was dropped");
     crate::reach_end!();
@@ -145,13 +146,15 @@ fn ser_nested(inner_fails: bool) {
     assert!(n == if inner_fails { 1 } else { 2 }, "number of transmissions");
     if !inner_fails {
         let i = env::att(0);
+        let i_pay = env::att_pay(0);
         assert!(i.ok && i.nfds == 1 && i.fds[0] == fd_of(&c_tx), "C14: the nested message does not carry exactly its own attachment");
-        assert!(i.len == 9 && le64(&i.pay, 0) == 0 && i.pay[8] == 0xEE, "C14: nested message payload / index");
+        assert!(i.len == 9 && le64(&i_pay, 0) == 0 && i_pay[8] == 0xEE, "C14: nested message payload / index");
     }
     let o = env::att(n - 1);
+    let o_pay = env::att_pay(n - 1);
     assert!(o.ok && o.nfds == 2, "C14: the enclosing message does not carry exactly its own two attachments");
     assert!(o.fds[0] == fd_of(&a_tx) && o.fds[1] == fd_of(&b_tx), "C14: attachments of the enclosing message replaced or reordered by the nested send");
-    assert!(o.len == 17 && le64(&o.pay, 0) == 0 && o.pay[8] == 0x77 && le64(&o.pay, 9) == 1, "C14: attachment indices of the enclosing message");
+    assert!(o.len == 17 && le64(&o_pay, 0) == 0 && o_pay[8] == 0x77 && le64(&o_pay, 9) == 1, "C14: attachment indices of the enclosing message");
     assert!(ipc::verif_hooks::serialization_tables_len() == (0, 0), "C14: side tables not empty after the sends");
     drop((tx, rx, via_tx, via_rx, a_tx, a_rx, b_tx, b_rx, c_tx, c_rx));
     assert!(env::nopen() == 0 && !env::bad_close(), "C11/C14: descriptors left after everything was dropped");
